@@ -92,9 +92,11 @@ def check_c03(out, tier, seed):
     import random
     from . import core as c
     rnd = random.Random(seed)
-    plan = [("perm1", 3, 4, "none", None), ("perm2", 3, 4, "none", None)] if tier == "quick" else \
+    plan = [("perm1", 3, 4, "none", None), ("perm2", 3, 4, "none", None),
+            ("permg", 3, 5, "none", None), ("perml", 3, 5, "none", None)] if tier == "quick" else \
            [("perm1", 3, 6, "none", 60000), ("perm2", 3, 5, "none", None),
-            ("perm1", 3, 5, "gfa1", 30000), ("perm2", 3, 4, "gfa2", None)]
+            ("perm1", 3, 5, "gfa1", 30000), ("perm2", 3, 4, "gfa2", None),
+            ("permg", 3, 7, "none", 60000), ("perml", 3, 7, "none", 60000)]
     jobs = []
     sp_states = sp_trans = 0
     ndocs = 0
